@@ -25,7 +25,7 @@ end program Main
   use Other_Mod, only: Helper, Val => Orig
   implicit none
   private
-  integer, parameter :: N = 3
+  integer, parameter :: Nn = 3
   type :: Point
     real :: x, y
   end type Point
@@ -131,6 +131,78 @@ end program Cmt
 ! trailer
 """,
 }
+
+VALID.update({
+    "io": """subroutine Io_Things(Lun, Fname)
+  integer :: Lun, Ios, Kk
+  character(len=*) :: Fname
+  real :: Buf(4)
+  namelist /Grp/ Ios, Kk
+  open (unit=Lun, file=Fname, status='old', iostat=Ios)
+  read (Lun, 100, end=20, err=30) Buf
+100 format (4(f8.3, 1x))
+  write (*, '(a, i3)') "ios = ", Ios
+  inquire (unit=Lun, opened=Ok)
+  rewind Lun
+  backspace (Lun)
+  read (Lun, nml=Grp)
+20 close (Lun)
+30 print *, 'done: ', Buf(1:2)
+end subroutine Io_Things
+""",
+    "types": """module Shapes
+  implicit none
+  type, abstract :: Shape
+    real :: Area = 0.0
+  contains
+    procedure(Area_If), deferred :: Get_Area
+  end type Shape
+  type, extends(Shape) :: Circle
+    real :: Radius
+  contains
+    procedure :: Get_Area => Circle_Area
+  end type Circle
+  abstract interface
+    function Area_If(This) result(a)
+      import :: Shape
+      class(Shape), intent(in) :: This
+      real :: a
+    end function Area_If
+  end interface
+  enum, bind(c)
+    enumerator :: Red = 1, Green
+  end enum
+contains
+  function Circle_Area(This) result(a)
+    class(Circle), intent(in) :: This
+    real :: a
+    a = 3.14 * This%Radius ** 2
+  end function Circle_Area
+end module Shapes
+""",
+    "misc": """subroutine Misc(p, q, n)
+  real, pointer :: p(:)
+  real, target :: q(n)
+  integer :: n, k
+  real, allocatable :: w(:)
+  common /Blk/ k
+  data k /3/
+  allocate (w(n), stat=k)
+  p => q
+  if (k) 10, 20, 30
+10 go to (20, 30), n
+20 where (q > 0.0) q = 1.0
+  forall (k = 1:n) w(k) = q(k)
+30 nullify (p)
+  deallocate (w)
+  select type (x => p)
+  class default
+    k = 0
+  end select
+  if (n > 1) stop 'too many'
+end subroutine Misc
+""",
+})
 
 VALID_2008 = {
     "block": """program Blk
